@@ -133,6 +133,22 @@ BAD_VALUES = {   # violations of represented constraints (or of the integer rang
 }
 
 
+from .c03 import RUST_ZERO
+
+
+def added_leaves(d, r, path=()):
+    """Members present in the realised value r but absent from the schema default d."""
+    if isinstance(d, dict) and isinstance(r, dict):
+        for k, x in r.items():
+            if k not in d:
+                yield path + (k,), x
+            else:
+                yield from added_leaves(d[k], x, path + (k,))
+    elif isinstance(d, list) and isinstance(r, list):
+        for i, (a, b) in enumerate(zip(d, r)):
+            yield from added_leaves(a, b, path + (i,))
+
+
 def build_doc(kind, value, form):
     defs = copy.deepcopy(BASE_DEFS)
     s = copy.deepcopy(KINDS[kind])
@@ -294,8 +310,27 @@ def run(tier, seed, replay=None):
             if m["form"] == "named" and named in info and "default" in info[named]:
                 probes.append({"pid": len(probes), "case": cid, "ty": named, "op": "default", "input": None,
                                "what": "named_default"})
+            # reference for "up to filling of nested defaults": the schema default written out explicitly and read by
+            # the type's own deserialiser, which fills nested members from THEIR declared defaults
+            if m["form"] == "named" and named in info:
+                probes.append({"pid": len(probes), "case": cid, "ty": named, "op": "de", "input": json.dumps(m["value"]),
+                               "what": "ref_explicit"})
+            elif holder in info:
+                probes.append({"pid": len(probes), "case": cid, "ty": holder, "op": "de",
+                               "input": json.dumps({"p": m["value"]}), "what": "ref_explicit"})
         outs, ab, to, sk = run_.probe([{k: v for k, v in p.items() if k != "what"} for p in probes])
+        explicit = {}
         for p in probes:
+            o = outs.get(p["pid"])
+            if p["what"] == "ref_explicit" and o and o.get("ok") and o.get("w") is not None:
+                try:
+                    w_ = json.loads(o["w"])
+                    explicit[p["case"]] = w_ if meta[p["case"]]["form"] == "named" else (w_.get("p") if isinstance(w_, dict) else None)
+                except Exception:
+                    pass
+        for p in probes:
+            if p["what"] == "ref_explicit":
+                continue
             o = outs.get(p["pid"])
             if o is None:
                 continue
@@ -359,6 +394,22 @@ def run(tier, seed, replay=None):
             if not oracle.valid_against(KINDS[m["kind"]], realised, BASE_DEFS):
                 rep.violation("realised_default_invalid", site, dict(det, realised=realised), case=case, meta=m)
                 continue
+            ref = explicit.get(p["case"])
+            if ref is not None and contained(ref, realised) is not None or (ref is not None and contained(realised, ref) is not None):
+                # the members filled in differ from what the type's own deserialiser fills in for the same default
+                extra = [[list(pa), x] for pa, x in added_leaves(d, realised)]
+                from .c03 import without
+                drop = {tuple(pa) for pa, _ in extra}
+                same_otherwise = contained(without(realised, drop), without(ref, drop)) is None and \
+                    contained(without(ref, drop), without(realised, drop)) is None
+                cause = "nested_declared_default_replaced_by_rust_default" if extra and same_otherwise and all(
+                    x in RUST_ZERO for _, x in extra) else None
+                rep.violation("nested_default_fill_differs", "%s/%s" % (m["kind"], p["what"]),
+                              dict(det, realised=realised, deserialised_explicit_default=ref, filled=extra[:4], cause=cause),
+                              cause=cause, case=case, meta=m)
+                continue
+            if ref is not None:
+                rep.count("fill_equals_deserialised_default")
             rep.count("realised_ok_" + p["what"])
             honoured.add((m["kind"], m["form"]))
             rep.nontrivial.add((m["kind"], json.dumps(d), m["form"], p["what"]))
